@@ -12,3 +12,18 @@ reg("C18", "proof",
     "size formula; write_shape stores ((size + 4) / 2) as i32 and emits record number, length, 4-byte code, shape in that order on "
     "one destination. 13 + 13 + per-path obligations, all discharged.",
     note=TRUST + "; a for loop over a slice runs once per element; usize arithmetic in size_in_bytes does not overflow")
+reg("C12", "other",
+    "abstract fault enumeration per fallible call site (E3 error discipline), who-may-call bans, flow rules on finalize",
+    "Necessary structural conditions, decided for every call site rather than for sampled failure points: each of the ~130 "
+    "fallible call sites on the writer call graph (I/O primitives, seeks, flushes, local helpers, dbase calls) is made to fail "
+    "in the abstract interpreter and every abstract path through it must return that error (Drop::drop excepted, as the property "
+    "says); no unwrap/expect/panic on the graph; finalize clears `dirty` only after its last I/O and on no failing path, and "
+    "starts each destination with an absolute seek (retry independence); no Write::write anywhere, byteorder writes via "
+    "write_all. Not decided: byte equality of retried output (argued from these clauses), BufWriter deferring errors.")
+reg("C13", "other",
+    "abstract fault enumeration per fallible call site (E3 error discipline) on the reader call graph, who-may-call bans",
+    "Necessary structural conditions for every call site: each fallible call on the reader graph (read primitives, seeks, "
+    "header/record/index readers, dbase iterator) is made to fail abstractly and every path through it must return the error "
+    "in an error position (Err / Some(Err)); hence no error becomes end-of-iteration and no shape is built from a failed read; "
+    "no partial-read API (Read::read etc.) anywhere; byteorder reads via read_exact. Not decided: equality of the shapes "
+    "returned before the cut with the originals (C01), panics on malformed counts (C07).")
